@@ -6,7 +6,7 @@
        one member, one constructor parameter and one initialiser per field, in declaration order. *)
 From Coq Require Import List String Ascii ZArith Bool Arith.
 From PDV Require Import Lib.StrUtil Marshal.Ident Marshal.IdentProofs Marshal.TypeStr Marshal.TypeStrProofs
-                        Jinja.Tir Jinja.Interp Gen.Templates Jinja.FragFlags Jinja.FragEnums Jinja.FragRecord Jinja.FragDecl Jinja.FragIface Jinja.Inline Jinja.FragIfaceJava.
+                        Jinja.Tir Jinja.Interp Gen.Templates Jinja.FragFlags Jinja.FragEnums Jinja.FragRecord Jinja.FragDecl Jinja.FragIface Jinja.Inline Jinja.FragIfaceJava Jinja.FragErr.
 Import ListNotations.
 Open Scope string_scope. Open Scope list_scope.
 
@@ -116,6 +116,18 @@ Theorem C02_java_interface_loop_is_the_template :
   end = jiface_loop_l.
 Proof. vm_compute. reflexivity. Qed.
 Print Assumptions C02_java_interface_loop_is_the_template.
+
+(* error domains: exactly their codes, in declaration order *)
+Theorem C02_error_codes_cpp : forall dom cl,
+  exec cpp_cfg cpp_codes_loop (estate dom cl) = (estate dom cl, concat "" (map cpp_code_line cl)).
+Proof. exact cpp_error_codes_render. Qed.
+Print Assumptions C02_error_codes_cpp.
+
+Theorem C02_error_codes_java : forall dom cl c idx last, exists st' tail,
+  execs java_cfg java_codes_body (bind "loop" (loopv idx (Nat.eqb idx 0) last) (bind "error_code" (ecodev c) (estate dom cl)))
+  = (st', (java_code_head dom c ++ tail)%string).
+Proof. exact java_error_code_class_opens. Qed.
+Print Assumptions C02_error_codes_java.
 
 Theorem C02_members_in_declaration_order : forall h l idx k f, nth_error l k = Some f ->
   exists pre post, lines h l idx = (pre ++ h f (idx + k) (match skipn (S k) l with [] => true | _ => false end) ++ post)%string.
